@@ -1163,14 +1163,18 @@ where
         }
         let mut safe = self.safe.write().await;
         if let None = safe.active_blob {
-            let blob_opt = safe.blobs.write().await.pop();
+            let blob_opt = {
+                let mut blobs = safe.blobs.write().await;
+                // As in `pop_active`: records can be added only while the index of the active blob is in memory.
+                // It is loaded while the blob still is one of the closed blobs: if that fails, or this future is
+                // dropped meanwhile, nothing is lost and no blob with an on-disk index becomes active.
+                if let Some(last) = blobs.last_id().and_then(|id| blobs.get_child_mut(id)) {
+                    last.data.load_index().await?;
+                }
+                blobs.pop()
+            };
             if let Some(blob) = blob_opt {
                 safe.active_blob = Some(Box::new(ASRwLock::new(blob)));
-                // As in `pop_active`: records can be added only while the index of the active blob is in memory.
-                // The blob is installed first, so that it is never owned by this future alone.
-                if let Some(active) = safe.active_blob.as_ref() {
-                    active.write().await.load_index().await?;
-                }
                 Ok(())
             } else {
                 Err(Error::uninitialized().into())
